@@ -29,8 +29,25 @@ fn member(text: String) -> Option<Member> {
 enum Law {
     /// acc(E) <=> OR acc(member)
     Equal,
-    /// acc(member) => acc(E)
-    Includes,
+    /// acc(member) => acc(E) for all paths, and acc(E) => OR acc(member) for paths of at most
+    /// this many characters (an open repetition whose body consumes at least one character
+    /// cannot iterate more often than the path is long)
+    IncludesAndEqualUpTo(u8),
+}
+
+/// path length, saturating
+struct LenMon {
+    max: u8,
+}
+
+impl automata::Monitor for LenMon {
+    type S = u8;
+    fn init(&self) -> u8 {
+        0
+    }
+    fn step(&self, s: &u8, _: u32, _: char) -> Option<u8> {
+        Some((*s + 1).min(self.max))
+    }
 }
 
 /// Explores DFA(E) x DFA(m_1) x ... and checks the law in every reachable tuple.
@@ -55,14 +72,21 @@ fn check_family(
     }
     let pats: Vec<&str> = dfas.iter().map(|d| d.pattern.as_str()).collect();
     let Ok(alphabet) = automata::alphabet(&pats, &[]) else { return };
-    let ex = model::explore_counted(c, &dfas, &NoMonitor, &alphabet);
+    let bound = match law {
+        Law::IncludesAndEqualUpTo(n) => n,
+        Law::Equal => 0,
+    };
+    let ex = model::explore_counted(c, &dfas, &LenMon { max: bound.saturating_add(1) }, &alphabet);
     bump(c, "families", 1);
+    if e_text.len() <= 5 {
+        rep.sample(json!({"law": kind, "whole": e_text, "members": members.iter().map(|m| m.text.clone()).collect::<Vec<_>>(), "product_states": ex.states.len()}));
+    }
     // binding: every state, every member, through the public API
     let e_glob = model::build_ok(e_text);
     let m_globs: Vec<Option<Glob<'_>>> = members.iter().map(|m| model::build_ok(&m.text)).collect();
     let strings = model::access_strings(&ex);
     let mut violation: Option<(usize, bool, Vec<bool>)> = None;
-    for (i, (t, _)) in ex.states.iter().enumerate() {
+    for (i, (t, len)) in ex.states.iter().enumerate() {
         let e_acc = automata::acc(&dfas, t, 0);
         let m_acc: Vec<bool> = (1..dfas.len()).map(|k| automata::acc(&dfas, t, k)).collect();
         // binding validation
@@ -83,7 +107,7 @@ fn check_family(
         let union = m_acc.iter().any(|x| *x);
         let bad = match law {
             Law::Equal => e_acc != union,
-            Law::Includes => union && !e_acc,
+            Law::IncludesAndEqualUpTo(n) => (union && !e_acc) || (*len <= n && e_acc && !union),
         };
         if bad && violation.is_none() {
             violation = Some((i, e_acc, m_acc));
@@ -104,9 +128,10 @@ fn check_family(
             crate::common::machinery_failure("non-deterministic is_match");
         }
         let union = r1.1.iter().any(|x| *x);
+        let plen = path.chars().count();
         let bad = match law {
             Law::Equal => r1.0 != union,
-            Law::Includes => union && !r1.0,
+            Law::IncludesAndEqualUpTo(n) => (union && !r1.0) || (plen <= n as usize && r1.0 && !union),
         };
         if !bad {
             bump(c, "unconfirmed_model_witnesses", 1);
@@ -134,14 +159,14 @@ fn check_family(
                 e_text,
                 match law {
                     Law::Equal => "!= union of",
-                    Law::Includes => "does not include",
+                    Law::IncludesAndEqualUpTo(_) => "is not (within the length bound) the union of",
                 },
                 member_texts,
                 path,
                 r1.0,
                 r1.1
             ),
-            case: json!({"kind": "family", "law": kind, "includes_only": matches!(law, Law::Includes),
+            case: json!({"kind": "family", "law": kind, "includes_only": matches!(law, Law::IncludesAndEqualUpTo(_)), "equal_up_to": bound,
                          "whole": e_text, "members": member_texts, "path": path}),
         });
     }
@@ -169,7 +194,8 @@ pub fn replay_family(case: &serde_json::Value) -> bool {
     let union = ms.iter().any(|x| *x);
     println!("expected: whole {} union of members = {}", if includes_only { ">=" } else { "==" }, union);
     if includes_only {
-        union && !w
+        let n = case["equal_up_to"].as_u64().unwrap_or(0) as usize;
+        (union && !w) || (path.chars().count() <= n && w && !union)
     }
     else {
         union != w
@@ -257,9 +283,16 @@ pub fn c07(tier: Tier) -> i32 {
                         }
                     }
                     let top = lo + 3;
+                    // an open repetition: members up to lower+3; equality is still demanded on
+                    // paths so short that more iterations are impossible (needs a body that
+                    // consumes at least one character per iteration)
+                    let body_min = match &astops::node_at(&e.ast, &path).kind {
+                        Kind::Rep { body, .. } => min_len(body),
+                        _ => 0,
+                    };
                     let (upper, law) = match hi {
                         Some(h) if h <= top => (h, Law::Equal),
-                        _ => (top, Law::Includes),
+                        _ => (top, Law::IncludesAndEqualUpTo(if body_min >= 1 { (top.min(40)) as u8 } else { 0 })),
                     };
                     if upper > 6 {
                         continue;
@@ -306,7 +339,7 @@ pub fn c07(tier: Tier) -> i32 {
         for i in 0..n {
             for j in (i + 1)..=n {
                 let whole = i == 0 && j == n;
-                if !whole && esize > sub_wrap_max {
+                if !whole && (esize > sub_wrap_max || e.pass == "position") {
                     continue;
                 }
                 if e.ast[j - 1].is_flag() {
@@ -439,6 +472,19 @@ fn check_any(
             break;
         }
     }
+}
+
+/// minimal number of characters a sequence consumes
+fn min_len(seq: &Seq) -> usize {
+    seq.iter()
+        .map(|n| match &n.kind {
+            Kind::Lit(t) => t.chars().count(),
+            Kind::Sep | Kind::One | Kind::Class { .. } => 1,
+            Kind::Zom(_) | Kind::Tree { .. } | Kind::Flag(_) => 0,
+            Kind::Alt(bs) => bs.iter().map(min_len).min().unwrap_or(0),
+            Kind::Rep { body, bounds } => bounds.values().map_or(0, |(lo, _)| lo) * min_len(body),
+        })
+        .sum()
 }
 
 #[allow(dead_code)]
